@@ -30,7 +30,7 @@ Definition new_single (sequence : bytes) (style : pstyle) : outcome fileseq :=
     match submatches R_singleFramePattern sequence 3 with
     | Some [name; frame; ext'] =>
       match opt_frameset frame with
-      | None => Ok (set_padding (mkQ dir basename ext' [] 0 None style) [])
+      | None => Ok (set_padding (mkQ dir basename ext [] 0 None style) [])
       | Some f =>
         let '(dir', base') := path_split name in
         let pad := padding_chars style (Z.of_nat (List.length frame)) in
